@@ -25,4 +25,4 @@ Deliver, in {wt}/OUT/ :
   - patch.diff : `git diff` of your change to goa (source files only, not the demonstration),
   - demo/ : the demonstration files plus a `run.sh` that exits 0 when the property holds and non-zero when it is violated, runnable from {wt} (run.sh may cd and go test/go run; the demo Go files may live inside the worktree's module, e.g. {wt}/OUT/demo is fine if you use the module goa.design/goa/v3 via a relative test package, or create a tiny module with `replace goa.design/goa/v3 => {wt}` and copy {wt}/go.sum),
   - meta.json : {{"property": "{pid}", "summary": "<what the change does>", "needs": "<what is needed for it to manifest>", "files": [...], "verified": {{"build": true/false, "suite_unchanged": true/false, "demo_fails_with_change": true/false, "demo_passes_without_change": true/false}}}}.
-Verify all four facts yourself (use `git stash` / `git stash pop` or a second copy to run the demo without the change). Leave the worktree WITH your change applied. Final message: 10 lines max summarising the change, what it needs to manifest, and the verification results.""")
+Verify all four facts yourself (to run the demo without the change use `git diff > /tmp/x.diff; git apply -R /tmp/x.diff; ...; git apply /tmp/x.diff` with a file name of your own, or a second copy; do NOT use `git stash`: the stash is shared with other worktrees of this repository). Leave the worktree WITH your change applied. Final message: 10 lines max summarising the change, what it needs to manifest, and the verification results.""")
